@@ -264,7 +264,7 @@ func genArgposCases(r *h.Rand) []h.Case {
 	p, _, _ := twinProg(r)
 	p.esc = "html"
 	n := r.Intn(5)
-	pool := []string{`1`, `"a<"`, `s`, `i`, `t`, `li[0]`, `st.A`, `1.5`, `i + 2`, `st.B`, `ls[0]`, `li`, `e`}
+	pool := []string{`1`, `"a<"`, `s`, `i`, `t`, `li[0]`, `st.A`, `1.5`, `i + 2`, `st.B`, `ls[0]`, `li`, `e`, `ident(st).B`, `ident(st).A`, `ident(ident(st)).B`}
 	var args []string
 	for k := 0; k < n; k++ {
 		args = append(args, r.Pick(pool))
